@@ -15,7 +15,7 @@ from .. import harness, repodrv
 
 LEVEL = 'fault_enumeration'
 CLAUSES = ['P:Safety', 'P:CommitComplete', 'P:SnapshotFaithful', 'P:SnapshotWellFormed', 'P:RestoreOk', 'P:RestoreSelect',
-           'P:RestoreNothingElse', 'P:ListOk', 'P:ListSnapshotsSet', 'P:CleanExact', 'P:OthersUntouched', 'P:CommandSucceeds']
+           'P:RestoreNothingElse', 'P:ListOk', 'P:ListSnapshotsSet', 'P:CleanExact', 'P:OthersUntouched', 'P:CommandSucceeds', 'P:Terminates']
 
 
 def follow_ups(f, tag):
@@ -134,7 +134,8 @@ def main(run):
                 if order == 'slow-snapshot-objects' and kind == 'clean':
                     continue
                 traces += crash_points(run, g, seed, kind, fl, conc, quick, order)
-    for i, (g, kind, fl, conc) in enumerate(combos[:3] if quick else combos[::3]):
+    pf = (combos[:3] + [('shared', 'snapshot', 'plain', 1), ('plain', 'snapshot', 'async', 1)]) if quick else combos[::3]
+    for i, (g, kind, fl, conc) in enumerate(pf):
         traces += permanent_failures(run, g, run.seed * 100 + 40 + i, kind, fl, conc, quick)
     rc.validate(run, traces, CLAUSES, label='c03.crash-points')
     from . import c03_local
